@@ -71,6 +71,8 @@ pub struct Script<'a> {
     /// async only: after every cancellation the caller sends a command (`noidle`) on the connection
     /// before it calls `receive()` again (what the client's loop does when a request wins the select)
     pub send_after_cancel: bool,
+    /// drive the connection through `command()` (send + receive in one call) instead of `receive()`
+    pub via_command: bool,
 }
 
 #[derive(Default)]
@@ -242,7 +244,7 @@ fn drive_cancellable<F: Future>(fut: F, st: &ReaderState) -> Driven<F::Output> {
 
 /// A connection that has completed the handshake on its own greeting read.
 fn greeting_script() -> Script<'static> {
-    Script { stream: GREETING, cuts: &[], end: EndAnswer::Eof, pending_mask: 0, cancel_mask: 0, cancel_twice_mask: 0, send_after_cancel: false }
+    Script { stream: GREETING, cuts: &[], end: EndAnswer::Eof, pending_mask: 0, cancel_mask: 0, cancel_twice_mask: 0, send_after_cancel: false, via_command: false }
 }
 
 /// Feed `script.stream` (after a handshake with a fixed greeting delivered in its own read) and
@@ -294,6 +296,16 @@ impl<R: AsyncRead + Unpin> AsyncRead for Phased<'_, R> {
 }
 
 /// writes are accepted and discarded
+impl<R> io::Write for Phased<'_, R> {
+    fn write(&mut self, buf: &[u8]) -> io::Result<usize> {
+        Ok(buf.len())
+    }
+    fn flush(&mut self) -> io::Result<()> {
+        Ok(())
+    }
+}
+
+/// writes are accepted and discarded
 impl<R: Unpin> AsyncWrite for Phased<'_, R> {
     fn poll_write(self: Pin<&mut Self>, _cx: &mut Context<'_>, buf: &[u8]) -> Poll<io::Result<usize>> {
         Poll::Ready(Ok(buf.len()))
@@ -317,7 +329,8 @@ fn run_session_inner(flavor: Flavor, script: &Script<'_>, st: &ReaderState, max_
                 Err(e) => return Session { responses, end: Terminal::Io(format!("harness greeting rejected: {e:?}")) },
             };
             let end = loop {
-                match conn.receive() {
+                let got = if script.via_command { conn.command(mpd_protocol::Command::new("status")).map(Some) } else { conn.receive() };
+                match got {
                     Ok(Some(r)) => {
                         if responses.len() >= max_responses {
                             break Terminal::TooMany;
@@ -341,6 +354,19 @@ fn run_session_inner(flavor: Flavor, script: &Script<'_>, st: &ReaderState, max_
                 Err(t) => return Session { responses, end: t },
             };
             let end = loop {
+                if script.via_command {
+                    match drive(conn.command(mpd_protocol::Command::new("status"))) {
+                        Ok(Ok(r)) => {
+                            if responses.len() >= max_responses {
+                                break Terminal::TooMany;
+                            }
+                            responses.push(observe_response(&r));
+                            continue;
+                        }
+                        Ok(Err(e)) => break classify(&e),
+                        Err(t) => break t,
+                    }
+                }
                 match drive_cancellable(conn.receive(), st) {
                     Driven::Hang => break Terminal::Hang,
                     Driven::Cancelled => {
